@@ -195,6 +195,17 @@ pub fn run(r: &mut Rec) {
                         5 => digits(&mut rng, ml, Pat::Landmark),
                         _ => digits(&mut rng, ml, Pat::Random),
                     };
+                    // a longer base whose residue is shorter than the modulus (multiples of m, m*2^70 + small)
+                    let b = if rep % 7 == 4 && (top + rep as u64) % 2 == 0 {
+                        let k = digits(&mut rng, 1 + (rep % 2), Pat::Random);
+                        let mut p = crate::hint::mul(&crate::hint::from_u64s(&m), &crate::hint::from_u64s(&k));
+                        if top % 4 != 0 {
+                            p = crate::hint::add(&p, &vec![5u32]);
+                        }
+                        p.chunks(2).map(|c| c[0] as u64 | ((*c.get(1).unwrap_or(&0) as u64) << 32)).collect()
+                    } else {
+                        b
+                    };
                     let e = exponent(&mut rng, rep as u64 + top, if r.thorough { 4 } else { 2 });
                     one_case(r, &format!("m{} odd={} top{} rep{}", ml, odd, top, rep), &b, &e, &m);
                 }
@@ -215,6 +226,25 @@ pub fn run(r: &mut Rec) {
             }
         }
     }
+    // bases that are exact multiples of the modulus, or a multiple plus something shorter than the modulus
+    for ml in 1..=3usize {
+        for odd in [true, false] {
+            for add in [0u32, 1, 5] {
+                let mut m = digits(&mut rng, ml, Pat::Random);
+                if odd { m[0] |= 1 } else { m[0] &= !1; if m[0] == 0 && ml == 1 { m[0] = 6 } }
+                let nm = crate::hint::from_u64s(&m);
+                for shift in [64usize, 70, 128] {
+                    let mut p = vec![0u32; shift / 32];
+                    p.push(1 << (shift % 32));
+                    let mut b = crate::hint::mul(&nm, &p);
+                    if add > 0 { b = crate::hint::add(&b, &vec![add]); }
+                    let bd: Vec<u64> = b.chunks(2).map(|c| c[0] as u64 | ((*c.get(1).unwrap_or(&0) as u64) << 32)).collect();
+                    one_case(r, &format!("multiple m{} odd={} add{} sh{}", ml, odd, add, shift), &bd, &[5], &m);
+                }
+            }
+        }
+    }
+    one_case(r, "3<<64 mod 3", &[0, 3], &[5], &[3]);
     // m = 1, zero modulus, e = 0, b = 0
     for (b, e, m) in [(vec![5u64], vec![3u64], vec![1u64]), (vec![5], vec![3], vec![]), (vec![], vec![], vec![7]), (vec![], vec![5], vec![8]), (vec![9], vec![], vec![1]),
                       (vec![2], vec![0, 0, 1], vec![6]), (vec![3], vec![0, 1], vec![u64::MAX - 1, 5])] {
